@@ -110,11 +110,21 @@ def unitFromReg (pre : Prefixes K) (R : PReg K) (e : UExpr K) : Except Err (Unit
 
 /-! ## restoring -/
 
+/-- the row holds the default row's value, offset and dimensions (so it can differ from it in the
+    SI-prefixability flag only — `tex_repr` is not part of the modelled state) -/
+def sameData (a b : Entry K) : Bool := a.scale == b.scale && a.offset == b.offset && a.dim == b.dim
+
+/-- a row keyed by a default symbol travels as it is (else: the default row is what comes back):
+    the route carries modified default rows, and — when the row differs from the default in the
+    prefixable flag only — it also carries those -/
+def keepsRow (cfg : RouteCfg) (e d : Entry K) : Bool :=
+  cfg.keepsModifiedDefault && (cfg.keepsFlagOnlyDefault || !(sameData e d))
+
 /-- what happens to one row of the table -/
 def restoreRow (cfg : RouteCfg) (dflt : Lut K) (p : String × PRow K) : Option (String × PRow K) :=
   match dflt.find? p.1 with
   | some d =>
-    some (p.1, ⟨if cfg.keepsModifiedDefault then p.2.e else d, cfg.dfltRowCanon.apply p.2.canon⟩)
+    some (p.1, ⟨if keepsRow cfg p.2.e d then p.2.e else d, cfg.dfltRowCanon.apply p.2.canon⟩)
   | none =>
     if cfg.keepsAdded then some (p.1, ⟨p.2.e, cfg.userRowCanon.apply p.2.canon⟩) else none
 
@@ -178,7 +188,7 @@ def rowsGuard (E : EqTests K) (cfg : RouteCfg) (dflt : Lut K) (t : PLut K) : Boo
   else
   (t.all (fun p =>
       match dflt.find? p.1 with
-      | some d => (cfg.keepsModifiedDefault || E.entry p.2.e d) && cfg.dfltRowCanon.apply p.2.canon == p.2.canon
+      | some d => (keepsRow cfg p.2.e d || E.entry p.2.e d) && cfg.dfltRowCanon.apply p.2.canon == p.2.canon
       | none => cfg.keepsAdded && cfg.userRowCanon.apply p.2.canon == p.2.canon)
     && (cfg.keepsRemoved || dflt.all fun p => t.hasKey p.1))
 
